@@ -60,6 +60,39 @@ theorem castlingConsistent_tie (p : Model.Position) :
   rcases Bool.eq_false_or_eq_true (p.flags &&& 16 != 0 && (p.board.getD Gen.E8 0 != 96 || p.board.getD Gen.A8 0 != 72)) with h4 | h4 <;>
   simp only [h1, h2, h3, h4, Bool.false_eq_true, ↓reduceIte, Bool.not_true, Bool.not_false, Bool.and_self, Bool.and_false, Bool.false_and, Bool.and_true, Bool.true_and]
 
+/-! `Position.hasRoomFor` (capacity test of the loader): the two list sizes of the piece's side are parameters of the
+    translation; the selection of the side (a pointer swap in Go) is skipped and stated in `hasRoomFor_eq_decision`. -/
+
+/-- `hasRoomFor` as a function of the piece code and the two list sizes of its side -/
+def roomDecision (pc a b : Nat) : Bool :=
+  let k := pc &&& Model.Colorless
+  if k == Model.King then true
+  else if k == Model.Pawn then a < Model.pawnCap && a + b < Model.pieceCap
+  else a + b < Model.pieceCap
+
+theorem hasRoomFor_eq_decision (p : Model.Position) (pc : Nat) :
+    Model.hasRoomFor p pc = roomDecision pc (p.side (pc &&& Model.WhiteBit != 0)).pawns.length (p.side (pc &&& Model.WhiteBit != 0)).pieces.length := by
+  rfl
+
+theorem hasRoomFor_decision_tie (pc a b : Nat) (h1 : a < 1000) (h2 : b < 1000) :
+    Gen.Fn.hasRoomFor_decision pc a b = roomDecision pc a b := by
+  unfold Gen.Fn.hasRoomFor_decision roomDecision
+  have hb : band (pc : Int) 63 = ((pc &&& 63 : Nat) : Int) := by
+    unfold band; simp only [Int.toNat_natCast, Int.ofNat_eq_natCast]; rfl
+  simp only [hb, Model.Colorless, Gen.ColorlessPiece, Model.King, Gen.King, Model.Pawn, Gen.Pawn, Model.pawnCap, Gen.pawnCap, Model.pieceCap, Gen.pieceCap]
+  rw [wrapS64_id (by omega) (by omega)]
+  have k : ∀ x y : Nat, (((x : Int) == (y : Int)) = (x == y)) := by
+    intro x y; rw [Bool.eq_iff_iff]; simp only [beq_iff_eq]; omega
+  have k32 : (((pc &&& 63 : Nat) : Int) == 32) = ((pc &&& 63) == 32) := k _ 32
+  have k1 : (((pc &&& 63 : Nat) : Int) == 1) = ((pc &&& 63) == 1) := k _ 1
+  simp only [k32, k1]
+  have l1 : decide ((a:Int) < 8) = decide (a < 8) := decide_eq_decide.mpr (by omega)
+  have l2 : decide ((a:Int) + (b:Int) < 15) = decide (a + b < 15) := decide_eq_decide.mpr (by omega)
+  rcases Bool.eq_false_or_eq_true ((pc &&& 63) == 32) with e1 | e1 <;>
+  rcases Bool.eq_false_or_eq_true ((pc &&& 63) == 1) with e2 | e2 <;>
+  simp only [e1, e2, Bool.false_eq_true, ↓reduceIte, l1, l2] <;>
+  first | rfl | (congr 1 <;> exact decide_eq_decide.mpr Iff.rfl) | exact decide_eq_decide.mpr Iff.rfl
+
 example : Gen.Fn.areCastlingFlagsConsistent 3 160 136 0 0 0 0 = true ∧ Gen.Fn.areCastlingFlagsConsistent 3 160 72 0 0 0 0 = false := by decide
 
 end Magog.Props.C08Tie
